@@ -418,7 +418,7 @@ func init() {
 			if tier == "thorough" {
 				return 300000
 			}
-			return 20000
+			return 60000
 		},
 		Run: c10Run,
 		Rule: "random inheritance chains of depth 0-4 above a base (plus a sibling branching off the chain) served from an in-memory loader: per level every known block is overridden (with or without block.Super, possibly declaring nested blocks under new or inherited names, wrapped in if/for) or inherited, dangling blocks are added, child top-level text/failing expressions/a counting function are added; " +
